@@ -100,8 +100,8 @@ CLAIMED = {
    design="§5 C16"),
  "C18": dict(
    technique="Lean 4 theorems: a step whose range lies within an isolating node leaves every token up to its open token and after its closing untouched (strict and boundary-inclusive forms, all step kinds; pure insertions remove nothing); exact tie of Slice.max_open; relational monitor on every emitted step; outside-tokens oracle incl. whole-content ranges; lift/split probes",
-   text="3 kernel-checked theorems (Props/C18.lean); Slice.max_open is compared exactly with the model for both flags; for every isolating node of generated documents of the isolating / table-like schemas, ranges inside it (incl. its whole content) are edited with all replace-family operations: old tokens before the opening and after the closing must survive in order with the node intact, emitted steps are reproduced by the model and classified by the monitor (about 99% fall under the theorem, the rest re-create the node's own close tokens and are decided by the oracle); lift_target / can_split must not cross the boundary.",
-   note="Trusted: Lean kernel, models tied by sampling, harness. The range-expansion / fitting heuristics are not modelled; the monitor is sufficient, not necessary (coverage reported in evidence). Interpretation fixed in DESIGN.md: content that does not fit inside may be placed after the re-closed node; nothing outside may be removed or rewritten.",
+   text="3 kernel-checked theorems (Props/C18.lean); Slice.max_open is compared exactly with the model for both flags; for every isolating node of generated documents of the isolating / table-like schemas, ranges inside it (incl. its whole content) are edited with all replace-family operations: every token up to and including the node's opening and from its closing on must be unchanged (the property read literally: nothing removed, split, merged or added outside the node's content), emitted steps are reproduced by the model and classified by the monitor (most fall under the theorem; the rest re-create the node's own close tokens and are decided by the oracle); lift_target / can_split must not cross the boundary. Two upstream behaviours violate the literal reading and are recorded as open findings (the Fitter places content that does not fit after a closed copy of the node; insert_point walks out of it).",
+   note="Trusted: Lean kernel, models tied by sampling, harness. The range-expansion / fitting heuristics are not modelled; the monitor is sufficient, not necessary (coverage reported in evidence). The oracle states the property literally; the two upstream behaviours that violate it are open known findings narrowed by the frozen reference copy (DESIGN.md §2.5, §7).",
    design="§5 C18"),
  "C19": dict(
    technique="Lean 4 theorems for the part that is logic: html.escape is lossless and leaves no raw markup, the mark-stack serializer carries the document text; exact tie of the serialised HTML with the model (PM/Dom.lean); search for everything in lxml/cssselect/re: parse terminates (alarm), never crashes, yields valid documents, context rules apply only under matching ancestors, serialise->parse round trip on whitespace-normal documents",
@@ -152,7 +152,7 @@ def main():
         }],
         "checks": checks,
         "not_applicable": na,
-        "notes": "See DESIGN.md. Fix commits in /repo are recorded in KNOWN_FINDINGS.jsonl.",
+        "notes": "See DESIGN.md. Fix commits in /repo (31) and the 9 open findings are recorded in KNOWN_FINDINGS.jsonl; an open finding matches a violation only if its class predicate (harness/findings.py) holds and the tree under check behaves on that input exactly as the frozen copy of the library under /verif/reference (harness/reference.py). Seeded changes used to test the checks are under /verif/seeded (DESIGN.md §9).",
     }
     json.dump(m, open(os.path.join(V, "MANIFEST.json"), "w"), indent=1)
     print("claimed", [c["property_id"] for c in checks])
